@@ -3,8 +3,13 @@
 import io
 import itertools
 
-from ..core import Case, err_name
+from ..core import Case, err_name, dec_val, enc_val
 from ..seqcheck import SeqProp
+
+
+def dec_line(code):
+    """PrintBuffer prints strings: code 0 is the empty line"""
+    return "" if code == "0" else code
 
 
 class Prop(SeqProp):
@@ -52,7 +57,10 @@ class Prop(SeqProp):
                 if rng.random() < 0.3:
                     perm.sort(key=lambda i: i + rng.randint(-2, 2))  # nearly ordered arrivals, like a pool
                 for s in perm:
-                    ops.append(("put" if kind == "buf" else "print") + f" {s} {100 + s}")
+                    v = 100 + s
+                    if rng.random() < 0.3:
+                        v = rng.randint(0, 5) if kind == "buf" else 0
+                    ops.append(("put" if kind == "buf" else "print") + f" {s} {v}")
                     r = rng.random()
                     if kind == "buf":
                         if r < 0.35:
@@ -77,7 +85,7 @@ class Prop(SeqProp):
                 for j in range(rng.randint(0, 25)):
                     r = rng.random()
                     if r < 0.55:
-                        ops.append(f"put {j + 1}")
+                        ops.append(f"put {j + 6 if rng.random() < 0.8 else rng.randint(0, 5)}")
                     elif r < 0.62:
                         ops.append("clear")
                     elif r < 0.8:
@@ -118,9 +126,9 @@ class Prop(SeqProp):
             try:
                 if kind == "buf":
                     if w[0] == "put":
-                        r = obj(int(w[1]), int(w[2])); out.append("ok" if r is obj else "ok?")
+                        r = obj(int(w[1]), dec_val(int(w[2]))); out.append("ok" if r is obj else "ok?")
                     elif w[0] == "drain":
-                        out.append("list " + s(list(obj)))
+                        out.append("list " + s(enc_val(x) for x in obj))
                     elif w[0] == "flush":
                         obj.flush(); out.append("ok")
                     elif w[0] == "wf":
@@ -131,7 +139,7 @@ class Prop(SeqProp):
                         out.append("bad-op")
                 elif kind == "pbuf":
                     if w[0] == "print":
-                        out.append(f"ret {1 if obj.print(int(w[1]), w[2]) else 0}")
+                        out.append(f"ret {1 if obj.print(int(w[1]), dec_line(w[2])) else 0}")
                     elif w[0] == "flush":
                         obj.flush(); out.append("ok")
                     elif w[0] == "clear":
@@ -143,22 +151,22 @@ class Prop(SeqProp):
                     elif w[0] == "out":
                         v = sio.getvalue()
                         lines = v.split("\n")
-                        out.append("list " + s(lines[:-1]) + ("" if lines[-1] == "" else ",?unterminated"))
+                        out.append("list " + s("0" if x == "" else x for x in lines[:-1]) + ("" if lines[-1] == "" else ",?unterminated"))
                     else:
                         out.append("bad-op")
                 else:
                     if w[0] == "new":
                         obj = CircularBuffer(int(w[1])); out.append("ok")
                     elif w[0] == "put":
-                        obj.put(int(w[1])); out.append("ok")
+                        obj.put(dec_val(int(w[1]))); out.append("ok")
                     elif w[0] == "clear":
                         obj.clear(); out.append("ok")
                     elif w[0] == "get":
-                        out.append(f"ret {obj[int(w[1])]}")
+                        out.append(f"ret {enc_val(obj[int(w[1])])}")
                     elif w[0] == "len":
                         out.append(f"ret {len(obj)}")
                     elif w[0] == "list":
-                        out.append("list " + s(list(obj)))
+                        out.append("list " + s(enc_val(x) for x in obj))
                     else:
                         out.append("bad-op")
             except BaseException as e:  # noqa
